@@ -87,7 +87,7 @@ func VerifHarness_C02_chain() {
 // per shape); after a symbolic gap, scan 2 meets an arbitrary cluster.
 // Inside the cool-down of an accepted request scan 2 must not change the
 // group; after it (or after a refused request) it must act again.
-// shape: [nodes, scan-1 outcome (0 accepted, 1 refused by cloud max), class menu for scan 2,
+// shape: [nodes, scan-1 outcome (0 accepted, 1 refused by cloud max, 2 covered by untainting alone, 3 one node untainted and the rest refused), class menu for scan 2,
 //         fleet (1 = launch-template mode: the cloud call of scan 1 blocks ~2 s until the instances are ready),
 //         failure budget of scan 1 (any one API call of the scan, cloud or Kubernetes, may fail)]
 func VerifHarness_C02() {
@@ -99,9 +99,15 @@ func VerifHarness_C02() {
 	o.SoftDeleteGracePeriod, o.HardDeleteGracePeriod = "30s", "2m"
 	o.MinNodes, o.MaxNodes = 1, N+6
 	asgMax := int64(N + 6)
-	if refused == 1 {
+	extraT := 0 // freshly tainted nodes scan 1 can reuse
+	switch refused {
+	case 1:
 		asgMax = int64(N)
-		o.MaxNodes = N + 6
+	case 2:
+		extraT = 2 // the scale-up of scan 1 is covered by untainting alone: nothing is asked of the cloud
+	case 3:
+		extraT = 1 // scan 1 untaints one node and the cloud refuses the rest (group at its maximum)
+		asgMax = int64(N + extraT)
 	}
 	if fleet == 1 {
 		o.AWS.LaunchTemplateID, o.AWS.LaunchTemplateVersion = "lt-1", "1"
@@ -112,8 +118,15 @@ func VerifHarness_C02() {
 		w.EC2.ReadyAfter = 2 // ready at the second 1 s poll: the request is accepted ~2 s after it was made
 	}
 	w.symNodes("", g, N, []int{tcNone}, false, []int{0}, false)
-	// scan 1: twice the capacity requested -> scale-up
-	w.symPods("", g, 2, 1, false, int64(N)*w.cpuPerNode, false)
+	for t := 0; t < extraT; t++ {
+		w.addNode(g, tcEsc, false, 0, 0, int64(1000+100*t), true)
+	}
+	// scan 1: twice the capacity requested -> scale-up (just the capacity when untainting is to cover it)
+	perPod := int64(N) * w.cpuPerNode
+	if refused == 2 {
+		perPod = int64(N) * w.cpuPerNode / 2
+	}
+	w.symPods("", g, 2, 1, false, perPod, false)
 	w.build()
 	mark1 := len(w.J.Calls)
 	w.J.FailBudget = F1
@@ -129,8 +142,11 @@ func VerifHarness_C02() {
 	}
 	j1 := w.summarize(g, mark1)
 	accepted := j1.increases > 0 || (fleet == 1 && j1.added > 0)
-	if refused == 1 {
+	if refused >= 1 {
 		verifAssert("C02.harness-scan1-refused", !accepted)
+		if refused >= 2 && j1.untaints > 0 {
+			verifReach("C02.scan1-untainted-without-accepted-request")
+		}
 	} else if F1 == 0 {
 		verifAssert("C02.harness-scan1-accepted", accepted)
 	} else if accepted && w.J.Failed > 0 {
